@@ -67,7 +67,7 @@ type tev struct {
 	// Lock: the name of the lock of an acq / rel event without its mode ("" otherwise) - read by GluonLocksFree
 	Lock string `json:"lock"`
 	seq  int64
-	via string // touch events: the accessor of the state that was called (not part of the trace TLC reads)
+	via  string // touch events: the accessor of the state that was called (not part of the trace TLC reads)
 }
 
 type role struct {
